@@ -159,6 +159,14 @@ def kw(e: Event, name: str, default=None):
     for k, v in e.data.get("kwargs", ()):
         if k == name:
             return v
+    # the same argument passed by position to an external callable with a known signature (alg.EXT_SIGS)
+    from ..alg import EXT_SIGS
+    sig = EXT_SIGS.get(e.data.get("callee") or "")
+    if sig and name in sig:
+        i = sig.index(name)
+        a = e.data.get("args", ())
+        if i < len(a):
+            return a[i]
     return default
 
 
